@@ -97,6 +97,33 @@ def rebuildIndex (st : Store) (p : Nat) (region : Bytes) : Store × List IEntry 
   let file := hdr ++ (entries.map encIEntry).flatten
   ({ st with index := some file, part := none }, entries, 4)
 
+/-- the fallback of `Data::open_existing`: rebuild the index from the data -/
+def viaRebuild (st : Store) (p off : Nat) (region : Bytes) : Store × R DataSess :=
+  let r := rebuildIndex st p region
+  (r.1, .ok { p := p, hdrLen := off, ihdrLen := r.2.2, dataLen := region.length, entries := r.2.1,
+              lastFull := r.2.1.getLast?.map (·.ts), lastTime := none })
+
+/-- the index half of `Data::open_existing`: `Index::open_existing` with its
+`check_and_repair`, falling back to `Index::create_from_byteseries` -/
+def indexOpen (st : Store) (p off : Nat) (region : Bytes) (lastFullInData : Option Nat) : Store × R DataSess :=
+  let dataLen := region.length
+  let lastLineStart := if dataLen ≥ lineSize p then some (dataLen - lineSize p) else none
+  match fileOpenExisting st.index with
+  | .error _ => viaRebuild st p off region
+  | .ok (ioff, _) =>
+    match st.index with
+    | none => viaRebuild st p off region
+    | some ifile =>
+      match indexCheck ioff (ifile.drop ioff) lastLineStart lastFullInData with
+      | .error f => (st, .error f)
+      | .ok chk =>
+        let st := { st with index := some (ifile.take ioff ++ chk.region) }
+        if chk.ok then
+          let entries := parseIndex chk.region
+          (st, .ok { p := p, hdrLen := off, ihdrLen := ioff, dataLen := dataLen, entries := entries,
+                     lastFull := entries.getLast?.map (·.ts), lastTime := none })
+        else viaRebuild st p off region
+
 /-- `Data::open_existing`, given the already opened data file (`off` = its header length) -/
 def dataOpenExisting (st : Store) (p off : Nat) (cb : Option Bool) : Store × R DataSess :=
   match st.data with
@@ -104,36 +131,12 @@ def dataOpenExisting (st : Store) (p off : Nat) (cb : Option Bool) : Store × R 
   | some file =>
     let region := repairData p (file.drop off)
     let st := { st with data := some (file.take off ++ region) }
-    let dataLen := region.length
-    let lastLineStart := if dataLen ≥ lineSize p then some (dataLen - lineSize p) else none
     match lastMetaTs p region with
     | .error f => (st, .error f)
     | .ok lastFullInData =>
-      -- Index::open_existing, falling back to a rebuild
-      let viaRebuild (st : Store) : Store × R DataSess :=
-        let (st', entries, ioff) := rebuildIndex st p region
-        let d : DataSess := { p := p, hdrLen := off, ihdrLen := ioff, dataLen := dataLen, entries := entries,
-                              lastFull := entries.getLast?.map (·.ts), lastTime := none }
-        (st', .ok d)
-      let (st, rd) : Store × R DataSess :=
-        match fileOpenExisting st.index with
-        | .error _ => viaRebuild st
-        | .ok (ioff, _) =>
-          match st.index with
-          | none => viaRebuild st
-          | some ifile =>
-            match indexCheck ioff (ifile.drop ioff) lastLineStart lastFullInData with
-            | .error f => (st, .error f)
-            | .ok chk =>
-              let st := { st with index := some (ifile.take ioff ++ chk.region) }
-              if chk.ok then
-                let entries := parseIndex chk.region
-                (st, .ok { p := p, hdrLen := off, ihdrLen := ioff, dataLen := dataLen, entries := entries,
-                           lastFull := entries.getLast?.map (·.ts), lastTime := none })
-              else viaRebuild st
-      match rd with
-      | .error f => (st, .error f)
-      | .ok d =>
+      match indexOpen st p off region lastFullInData with
+      | (st, .error f) => (st, .error f)
+      | (st, .ok d) =>
         match lastLineOf region d cb with
         | .ok e => (st, .ok { d with lastTime := some e.ts })
         | .error (.err "NoData") => (st, .ok { d with lastTime := none })
